@@ -13,6 +13,7 @@ from tools.vlib import g_bool, g_list, g_opt
 UNKEYED = ("stream_t", "stream_n", "single", "pass")
 KEYED = ("keyed_t", "keyed_n", "ksingle")
 KINDS = UNKEYED + KEYED
+TOP = ("top_order", "top_fold", "top_merge")
 
 # ---------------------------------------------------------------- Python port (enumeration only)
 
@@ -102,7 +103,61 @@ def p_ksingle(m, last, force, ask):
     return any_
 
 
+def p_top(h, force, ask):
+    k = h["kind"]
+    q = h["q"]
+    if k == "top_order":
+        if not q:
+            return
+        if not force and ask(0, 1) == 1:
+            return
+        ask(0, len(q) - 1)
+    elif k == "top_fold":
+        if not q:
+            if force:
+                raise Stop()
+            return
+        sel = 0
+        for i in range(len(q)):
+            if (i == len(q) - 1 and sel == 0) or ask(0, 1) == 1:
+                sel += 1
+        for i in range(sel - 1, 0, -1):
+            ask(0, i)
+    elif k == "top_merge":
+        q2 = h["q2"]
+        if not q and not q2:
+            return
+        if not force and ask(0, 1) == 1:
+            return
+        if q and q2:
+            ask(0, 1)
+
+
+def p_inline(c, ask):
+    if c["kind"] == "shuffle":
+        n = len(c["input"])
+        for src in range(0, n - 1):
+            ask(src, n - 1)
+    else:
+        a, b = len(c["first"]), len(c["second"])
+        while a > 0 and b > 0:
+            if ask(0, 1) == 1:
+                b -= 1
+            else:
+                a -= 1
+
+
+def top_scripts(h, force, limit=4000):
+    return enum_scripts(lambda ask: p_top(h, force, ask), limit)
+
+
+def inline_scripts(c, limit=4000):
+    return enum_scripts(lambda ask: p_inline(c, ask), limit)
+
+
 def can_nt(h):
+    if h["kind"] == "top_merge":
+        return bool(h["q"]) or bool(h["q2"])
     if h["kind"] in KEYED:
         return any(q for _, q in h["m"])
     return bool(h["q"])
@@ -397,7 +452,49 @@ def tick_term(case, res):
     return "(run_trounds %s %s)" % (g_list([g_hook(h) for h in case["hooks"]]), g_list(rs))
 
 
+def g_thook(h):
+    k = h["kind"]
+    if k == "top_order":
+        return "(TOrder %s)" % g_ln(h["q"])
+    if k == "top_fold":
+        return "(TFold %s)" % g_ln(h["q"])
+    if k == "top_merge":
+        return "(TMerge %s %s)" % (g_ln(h["q"]), g_ln(h["q2"]))
+    raise ValueError(k)
+
+
+def top_term(case, res):
+    """single-round case on a top-level (observation) hook"""
+    if "rounds" not in res or not res["rounds"]:
+        return 3
+    rnd, r = case["rounds"][0], res["rounds"][0]
+    if "before" not in r:
+        return 3
+    ds = r.get("ds_used", rnd.get("ds", []))
+    return "(top_verdict %s %s %s %s)" % (g_thook(case["hook"]), g_bool(rnd.get("force", False)),
+                                           g_script(ds), g_obs(r))
+
+
+def inline_term(case, res):
+    if res.get("bad"):
+        out, used = "None", 0
+    elif "out" in res:
+        if len(res["out"]) != 1:
+            return 3
+        out, used = "(Some %s)" % g_ln(res["out"][0]), res["used"]
+    else:
+        return 3
+    ds = g_script(res.get("ds_used", case.get("ds", [])))
+    if case["kind"] == "shuffle":
+        return "(shuffle_verdict %s %s %s %s)" % (g_ln(case["input"]), ds, out, g_nat(used))
+    return "(merge_verdict %s %s %s %s %s)" % (g_ln(case["first"]), g_ln(case["second"]), ds, out, g_nat(used))
+
+
 def case_term(case, res):
+    if case["k"] == "inline":
+        return inline_term(case, res)
+    if case["k"] == "hook" and case["hook"]["kind"] in TOP:
+        return top_term(case, res)
     if case["k"] == "hook":
         return hook_term(case, res)
     if case["k"] == "tick":
@@ -410,6 +507,8 @@ def case_term(case, res):
 def shrink_case(case):
     """drop rounds, drop hooks, shorten queues / scripts"""
     c = case
+    if c["k"] == "inline":
+        return
     if len(c["rounds"]) > 1:
         for i in range(len(c["rounds"])):
             d = copy.deepcopy(c)
